@@ -196,14 +196,14 @@ def judge(ctx, recs, verdicts):
 
 def run(ctx):
     quick = ctx.quick
-    nrand = 600 if quick else 8000
+    nrand = 400 if quick else 8000
     rnd = [tx.random_item(ctx.rng, "r%d" % i) for i in range(nrand)]
     with concurrent.futures.ThreadPoolExecutor(max_workers=2) as ex:
         # code -> spec measurements meanwhile; every 5th (thorough: every 2nd) also through compiled modules
         every = 5 if quick else 2
         fr = ex.submit(measure, ctx, rnd, every)
         out = design_level(ctx)
-        items = items_from_tlc(ctx, out, 500 if quick else 5000)
+        items = items_from_tlc(ctx, out, 400 if quick else 5000)
         rrecs = fr.result()
     recs = measure(ctx, items, every)
     allrecs = recs + rrecs
